@@ -302,7 +302,7 @@ static SLOW_HEAVY: std::sync::Mutex<Vec<String>> = std::sync::Mutex::new(vec![])
 /// replaced and the text it was working on is recorded as Abort / Deadline.
 pub fn run_batch(texts: &[String]) -> Vec<WRes> {
     let n = BATCH_NO.fetch_add(1, Ordering::Relaxed);
-    let dir = std::path::Path::new(VERIF_ROOT).join("scratch");
+    let dir = std::path::Path::new(&verif_root()).join("scratch");
     let _ = std::fs::create_dir_all(&dir);
     let path = dir.join(format!("c18-batch-{}-{n}.json", std::process::id()));
     std::fs::write(&path, serde_json::to_string(texts).unwrap()).expect("write batch");
